@@ -310,6 +310,52 @@ def rule_faithful(R):
     else:
         R.ob("faithful/fields", False, "InboundPublish::new call not found", where=db.span)
     # packet_length comes from the Inbound progress value in every caller
+    def carries_inbound_length(code, t, depth=0):
+        """t is the payload of a Progress::Inbound -- directly, or re-wrapped by a local function on the way (e.g.
+        wait_for_progress handing it on as Some(length))"""
+        ok_all = True
+        for alt in phi_alts(t):
+            r, names = chain(alt)
+            if names[-2:] == ["@Inbound", "0"]:
+                continue
+            g = peel(r)
+            while isinstance(g, tuple) and g[0] in ("ok", "await"):
+                g = peel(g[1])
+            if depth >= 2 or not (isinstance(g, tuple) and g[0] == "call" and g[2] in f.bodies) or not names:
+                return False
+            gcode = f.code(f.bodies[g[2]])
+            hit = 0
+            for ralt in phi_alts(gcode.local_term(0)):
+                x = peel(ralt)
+                if not (x[0] == "agg" and x[1] == "adt" and x[3] == "Ok" and x[5]):
+                    continue   # an error return carries no length
+                cur = peel(x[5][0])
+                steps = list(names)
+                good = True
+                while steps:
+                    st = steps.pop(0)
+                    if st.startswith("@"):
+                        if not (cur[0] == "agg" and cur[1] == "adt"):
+                            good = False
+                            break
+                        if cur[3] != st[1:]:
+                            cur = None   # another variant: does not reach the projection
+                            break
+                    else:
+                        if not (cur[0] == "agg" and st in cur[4]):
+                            good = False
+                            break
+                        cur = peel(cur[5][cur[4].index(st)])
+                if not good:
+                    return False
+                if cur is None:
+                    continue
+                hit += 1
+                if not carries_inbound_length(gcode, cur, depth + 1):
+                    return False
+            ok_all = ok_all and hit > 0
+        return ok_all
+
     n = 0
     for name in ("drive", "poll", "recv"):
         b, code = cm[name]
@@ -317,7 +363,7 @@ def rule_faithful(R):
             n += 1
             t = code.operand_term(c.args[1])
             r, names = chain(t)
-            R.ob("faithful/length/%s" % name, names[-2:] == ["@Inbound", "0"],
+            R.ob("faithful/length/%s" % name, carries_inbound_length(code, t),
                  "%s decodes the length carried by Progress::Inbound (found %s)" % (name, show(t)), where=c.span)
     R.floor("faithful/length", n, 3, "callers of decode_inbound_publish")
     # process_received_packet: Some(len) only on Ok(true), len = take_packet().0
